@@ -382,6 +382,29 @@ def validity_suite(chk, w, rule, nmax, ns=None, fixed=True):
                     win = w.window(s2)
                     ok = o.kind == "val" and win is not None and ((win == (0, 0)) or (win[0] < win[1] <= n))
                     cs.expect(f, "self move-assignment leaves a valid support", case, o, ok, "a valid window")
+    # assignment across grids: the target takes over grid AND window of the source
+    from .r_reg_sup import different_grids
+    for n in _ns(3, min(nmax, 4), ns):
+        grid = w.need_grid(w.grid_values(n))
+        for gname, pts in different_grids(w, n):
+            other = w.mk_grid(pts)
+            if other.kind != "val":
+                continue
+            m = len(pts)
+            for wa in windows(n):
+                for wb in windows(m):
+                    for kind, ops in (("move", massign), ("copy", cassign)):
+                        if not ops or w.I.func(ops[0]["id"]) is None:
+                            continue
+                        src = w.need_support(grid, *wa)
+                        dst = w.need_support(other.v, *wb)
+                        f = w.I.func(ops[0]["id"])
+                        o = w.call(f, dst, [box(src)])
+                        ok = o.kind == "val" and same_window(w.window(dst), wa) and _same_grid(w, dst, grid) and \
+                            (kind == "move" or same_window(w.window(src), wa))
+                        cs.expect(f, "%s assignment from a support on a different grid: the target takes over grid and "
+                                     "window" % kind, dict(n=n, source=wa, target_grid=gname, target=wb), o, ok,
+                                  "target = former source (grid and window %s)" % (wa,))
     # Spline move (implicit, member-wise): moved-from spline is valid and interval-free
     for order in (1,):
         cls = w.spline_cls(order)
@@ -408,6 +431,13 @@ def validity_suite(chk, w, rule, nmax, ns=None, fixed=True):
                         same_window(spline_view(w, dst)[0], wa)
                     cs.expect(any_f, "move assignment of a spline leaves both objects valid; source interval-free",
                               dict(order=order, n=n, source=wa, target=wb), o, ok, "valid target and source (%s)" % why)
+                    if wa == wb:
+                        s3 = w.spline_on("a", order, grid, *wa)
+                        o = w.run(lambda: w.I.assign_memberwise(s3, s3, move=True), "s = std::move(s)")
+                        okv, why = valid_spline(w, s3, n)
+                        cs.expect(any_f, "self move-assignment of a spline leaves a valid spline (libstdc++: the "
+                                         "coefficient vector ends up empty)", dict(order=order, n=n, window=wa), o,
+                                  o.kind == "val" and okv, "a valid spline (%s)" % why)
     return cs.flush()
 
 
